@@ -563,6 +563,11 @@ pub fn search_c02(seed: u64, ctx: &mut Ctx) -> Option<J> {
         let np = order * (order - 1);
         for mask in 0..(1u64 << np) {
             for repr in ALL_REPRS {
+                // AdjacencyList::degree_sequence spawns a thread per vertex:
+                // at order 4 that representation sees every fourth digraph
+                if order == 4 && repr == "AdjacencyList" && mask % 4 != seed % 4 {
+                    continue;
+                }
                 let mut g = g_from_mask(order, mask);
                 reweigh(&mut rng, &mut g, repr);
                 let walks = random_walks(&mut rng, &g);
@@ -583,6 +588,9 @@ pub fn search_c02(seed: u64, ctx: &mut Ctx) -> Option<J> {
     // seeded random up to order 6, and non-contiguous AdjacencyMap digraphs
     for i in 0..6000 {
         for repr in ALL_REPRS {
+            if repr == "AdjacencyList" && i % 4 != 0 {
+                continue;
+            }
             let order = 4 + rng.below(3);
             let mut g = random_g(&mut rng, order, &[]);
             reweigh(&mut rng, &mut g, repr);
